@@ -678,7 +678,7 @@ def genIllegal : IO Unit := do
   acc "exec" "def f(*): pass\n" "ACCEPT" (some "C06-K03")
   acc "eval" "lambda *: 0" "ACCEPT" (some "C06-K03")
   acc "exec" "def f(a, *, **k): pass\n" "ACCEPT" (some "C06-K03")
-  acc "eval" "f(a=1, b)" "ACCEPT" (some "C06-K07")
+  acc "eval" "f(a=1, b)" "E:SyntaxError" none   -- was known finding C06-K07, repaired by fix acb9962
   acc "eval" "f(**k, a)" "E:SyntaxError" none
   -- legal Python that gpython rejects: form feed is white space
   emit { input := "ac eval " ++ enc "a \x0c+ b".toList, modelV := "E:SyntaxError", specV := "ACCEPT", tags := ["nt", "legal", "kf=C06-K08"] }
@@ -686,8 +686,8 @@ def genIllegal : IO Unit := do
   -- wrong trees (recorded): dotted decorator name, kw_defaults without the None placeholders
   emit { input := "ex " ++ enc "@a.b\ndef f(): pass\n".toList, modelV := "[(FunctionDef f (Arguments [] - [] [] - []) [(Pass)] [(Name a.b)] -)]",
          specV := "[(FunctionDef f (Arguments [] - [] [] - []) [(Pass)] [(Attribute (Name a) b)] -)]", tags := ["nt", "tree", "kf=C06-K09"] }
-  emit { input := "ev " ++ enc "lambda *, a, b=1: 0".toList, modelV := "(Lambda (Arguments [] - [(Arg a -) (Arg b -)] [(Num 1)] - []) (Num 0))",
-         specV := "(Lambda (Arguments [] - [(Arg a -) (Arg b -)] [- (Num 1)] - []) (Num 0))", tags := ["nt", "tree", "kf=C06-K10"] }
+  emit { input := "ev " ++ enc "lambda *, a, b=1: 0".toList, modelV := "(Lambda (Arguments [] - [(Arg a -) (Arg b -)] [- (Num 1)] - []) (Num 0))",   -- was C06-K10, repaired by fix 7a5ce26
+         specV := "(Lambda (Arguments [] - [(Arg a -) (Arg b -)] [- (Num 1)] - []) (Num 0))", tags := ["nt", "tree"] }
   -- must be rejected (and are)
   for t in ["f() = 1\n", "1 = 1\n", "a + 1 = 2\n", "a, 1 = 2\n", "(a if b else c) = 1\n", "lambda: 1 = 2\n", "None = 1\n", "del f()\n", "del 1\n", "a += b += c\n", "f() += 1\n",
             "x = = 1\n", "if a\n  b\n", "if a:\nb\n", "else: pass\n", "def f(: pass\n", "def f(a b): pass\n", "class: pass\n", "for in x: pass\n", "while: pass\n", "import\n", "from a import\n",
